@@ -439,7 +439,21 @@ class Program(BlockBase):  # R201
         comments = content != []
         try:
             while True:
-                obj = Program_Unit(reader)
+                try:
+                    obj = Program_Unit(reader)
+                except NoMatchError:
+                    # Found a syntax error for this rule. Now look to match
+                    # (via Main_Program0) with a program containing no
+                    # program statement as this is optional in Fortran.
+                    result = BlockBase.match(Main_Program0, [], None, reader)
+                    if not result:
+                        return result
+                    # Keep what was matched in front of the main program
+                    # (comments, includes, directives, earlier program
+                    # units) and carry on: whatever follows its END must be
+                    # a program unit too.
+                    content.extend(result[0])
+                    obj = None
                 if obj:
                     # obj could be None if there are only Comments
                     content.append(obj)
@@ -448,16 +462,6 @@ class Program(BlockBase):  # R201
                 next_line = reader.next()
                 # put the line back in the case where there are more lines
                 reader.put_item(next_line)
-        except NoMatchError:
-            # Found a syntax error for this rule. Now look to match
-            # (via Main_Program0) with a program containing no program
-            # statement as this is optional in Fortran.
-            result = BlockBase.match(Main_Program0, [], None, reader)
-            if result and content:
-                # Keep what was matched in front of the main program
-                # (comments, includes, directives, earlier program units).
-                return (content + result[0],)
-            return result
         except StopIteration:
             # Reader has no more lines.
             pass
